@@ -164,8 +164,8 @@ static int filter_assembly_str_fsa(const char unfiltered_str[],
         filter_str[j++] = (char)tolower(unfiltered_str[i]);
       break;
     }
-    // last printable ascii character
-    FAIL_IF_MSG(unfiltered_str[i] > '~', "Printable ascii characters only\n");
+    // last printable ascii character (bytes above 0x7f are negative as char)
+    FAIL_IF_ERR((unsigned char)unfiltered_str[i] > '~');
     i++;
   }
   return i;
@@ -180,6 +180,7 @@ static int str_to_instr(struct instr *instr_data, const char unfiltered_str[],
   char filter_str[FILTERED_STR_LEN] = {'\0'};
   // sanitize user input and copy filtered string to filter_str
   int ch_pos = filter_assembly_str_fsa(unfiltered_str, filter_str);
+  FAIL_IF_MSG(ch_pos == ASM_ERROR, "Printable ascii characters only\n");
   // skip comments/macro
   while (unfiltered_str[ch_pos] != '\n' && unfiltered_str[ch_pos] != '\r' &&
          unfiltered_str[ch_pos] != '\0')
